@@ -91,7 +91,7 @@ theorem runV_12 (s : Str) :
     obtain ⟨ka, ks, _, _⟩ := kind_facts c
     simp only [runV_cons, δV, ka, ks, List.all_cons, lastAlnum, okc]
     cases ha : NameSpec.alnum c <;> cases hs : NameSpec.isSep c <;>
-      simp [ih.1, ih.2, runV_dead, okc]
+      simp [ih.1, ih.2, runV_dead]
 
 theorem getLast_alnum (d : Nat) (r : Str) :
     ∃ x, (d :: r).getLast? = some x ∧ NameSpec.alnum x = lastAlnum (NameSpec.alnum d) r := by
@@ -127,7 +127,7 @@ theorem runN_12 (s : Str) :
         omega
       have h2 : NameSpec.isSep c = false := by
         simp only [NameSpec.isSep, isLowerAscii, isDigit, Bool.or_eq_true, Bool.and_eq_true,
-          decide_eq_true_eq, beq_iff_eq, Bool.or_eq_false_iff, beq_eq_false_iff_ne] at hlow ⊢
+          decide_eq_true_eq, Bool.or_eq_false_iff, beq_eq_false_iff_ne] at hlow ⊢
         omega
       have h3 : (lowerAscii c == c) = true := by
         simp only [lowerAscii, isUpperAscii, isLowerAscii, isDigit, Bool.or_eq_true, Bool.and_eq_true,
